@@ -1419,3 +1419,10 @@ def mon_C17h(ctx):
     for k, v in (spec.get('expect_force') or {}).items():
         if ro['force'].get(k) != v or ro['options'].get(k) != v or E.options.getopt(k) != v:
             ctx.bad('record-force-layer', TRUE)
+
+
+# ---------------------------------------------------------------------------------------------------
+# vacuity guard: the twin whose assertion is False must come back violated (and reproduce on the pristine code)
+
+def mon_TWIN(ctx):
+    ctx.bad('twin-assert-false', TRUE)
